@@ -454,10 +454,11 @@ def _run(ctx, oracle_only=False, big=None):
 def correspondence(ctx):
     from props import c07_wire
 
-    from props import c07_clock, c07_faults, c07_locale
+    from props import c07_clock, c07_faults, c07_foreign, c07_locale
 
     r = _run(ctx)
     r.merge(c07_wire.run(ctx))
+    r.merge(c07_foreign.run(ctx))
     r.merge(c07_clock.run(ctx))
     r.merge(c07_faults.run(ctx))
     r.merge(c07_locale.run(ctx))
@@ -468,10 +469,11 @@ def search(ctx, prior):
     # oracle only: first at the tier's own size, then (nothing found) on the large stream with a third zone
     from props import c07_wire
 
-    from props import c07_clock, c07_faults, c07_locale
+    from props import c07_clock, c07_faults, c07_foreign, c07_locale
 
     r = _run(ctx, oracle_only=True)
     r.merge(c07_wire.run(ctx))
+    r.merge(c07_foreign.run(ctx))
     r.merge(c07_clock.run(ctx))
     r.merge(c07_faults.run(ctx))
     r.merge(c07_locale.run(ctx))
@@ -527,6 +529,10 @@ def _judge(i):
 
 
 def replay(ctx, doc):
+    if doc["failure"]["input"].get("kind") in ("foreign-list-line", "foreign-session"):
+        from props import c07_foreign
+
+        return c07_foreign.replay(doc["failure"]["input"])
     if doc["failure"]["input"].get("kind") == "foreign-lc-time":
         from props import c07_locale
 
